@@ -616,4 +616,12 @@ def C17(ctx):
     sync_family(ctx, families.statics(ctx.tier, ctx.seed), want=("sound", "fails", "trace"), waive=False)
 
 
-CHECKS = {"C17": C17, "C18": C18, "C12": C12, "C19": C19, "C15": C15, "C13": C13, "C14": C14, "C10": C10, "C11": C11, "C01": C01, "C04": C04, "C05": C05, "C07": C07, "C08": C08, "C09": C09, "C02": C02, "C03": C03}
+def C20(ctx):
+    ctx.assumptions += ["future layer of LoomSem: block_on = loop { poll; if Pending: Notify::wait } with one spurious return; "
+                        "AtomicWaker = a slot holding the last registered waker, wake takes it; the hand-written future registers "
+                        "and tests a flag in either order (the check-then-register order can lose a wake-up: deadlock reachable)",
+                        "the observable result is flag value * 100 + number of polls"]
+    sync_family(ctx, families.futures_family(ctx.tier, ctx.seed), waive=False)
+
+
+CHECKS = {"C20": C20, "C17": C17, "C18": C18, "C12": C12, "C19": C19, "C15": C15, "C13": C13, "C14": C14, "C10": C10, "C11": C11, "C01": C01, "C04": C04, "C05": C05, "C07": C07, "C08": C08, "C09": C09, "C02": C02, "C03": C03}
